@@ -66,6 +66,8 @@ func runC09(p *Prog, r *Report) {
 	r.Rule("D7-walk", "walker: callback first, recurse into every entry, exits only EOF/error/SkipDir, a failed read ends the listing (shared with C01)")
 	c01Walker(p, r, e)
 	c09Surfaced(p, r, e)
+	r.Rule("D11-input-info", "the Info handed to an extractor is the result of Stat on the file that was opened, on every path")
+	inputInfoIsOpenedFilesStat(p, r, "D11-input-info", e)
 	c09Overall(p, r)
 	c09Pop(p, r, e)
 	r.Rule("D5-balanced", "a non-fatal .gitignore fault leaves the pattern stack in step with the directory nesting (shared with C01/C08)")
@@ -900,4 +902,69 @@ func c09Pop(p *Prog, r *Report, e *engine) {
 		r.Check(n1 > 0 && ok1, "D5-pop", ph.key+":pop", p.Pos(sl.Pos()), "pop only when the stack is non-empty", "the gitignore stack is popped without a non-empty check: an early return of the callback before the push (cancelled context, inode limit, fatal error) makes the deferred pop panic")
 	})
 	r.Instances("D5-pop", "stack pops", n, 1)
+}
+
+// inputInfoIsOpenedFilesStat (round 9): the ScanInput handed to Extract carries, in Info, the value
+// result of a Stat invoked on the file that Open returned — on every path, never a cached or
+// earlier value. A cached value is only as good as the error stored beside it (nil Info when the
+// lazy stat failed → the extractor dereferences nil and the whole scan dies), and skipping the stat
+// of the opened file drops a fault the status must show.
+func inputInfoIsOpenedFilesStat(p *Prog, r *Report, rule string, e *engine) {
+	fn := e.runExtractor
+	n := 0
+	for _, f := range withAnon(fn) {
+		forEachInstr(f, func(b *ssa.BasicBlock, _ int, in ssa.Instruction) {
+			st, ok := in.(*ssa.Store)
+			if !ok {
+				return
+			}
+			fa, ok := st.Addr.(*ssa.FieldAddr)
+			if !ok {
+				return
+			}
+			sn := namedOf(fa.X.Type().Underlying().(*types.Pointer).Elem())
+			if sn == nil || sn.Obj().Name() != "ScanInput" || sn.Obj().Pkg() == nil || sn.Obj().Pkg().Path() != fp(fsPkg) {
+				return
+			}
+			if sn.Underlying().(*types.Struct).Field(fa.Field).Name() != "Info" {
+				return
+			}
+			n++
+			site := fnKey(fn) + ":ScanInput.Info"
+			for _, l := range phiLeaves(st.Val, b) {
+				v := stripChangeType(l.val)
+				if mi, ok := v.(*ssa.MakeInterface); ok {
+					v = mi.X
+				}
+				ex, isEx := v.(*ssa.Extract)
+				var call *ssa.Call
+				if isEx {
+					call, _ = ex.Tuple.(*ssa.Call)
+				}
+				if call == nil || !call.Call.IsInvoke() || call.Call.Method.Name() != "Stat" || ex.Index != 0 {
+					r.Fail(rule, site, p.Pos(st.Pos()), "on some path the Info handed to the extractor is not the result of Stat on the opened file ("+short(renderValue(l.val, 0), 80)+"): a remembered value can be nil or stale when the stat that produced it failed, and the fault of the opened file's own stat goes unrecorded")
+					return
+				}
+				// the receiver of Stat is what Open returned
+				rcv := call.Call.Value
+				okRecv := false
+				for _, rl := range phiLeaves(rcv, call.Block()) {
+					if rex, ok := stripChangeType(rl.val).(*ssa.Extract); ok {
+						if oc, ok := rex.Tuple.(*ssa.Call); ok && oc.Call.IsInvoke() && oc.Call.Method.Name() == "Open" {
+							okRecv = true
+							continue
+						}
+					}
+					okRecv = false
+					break
+				}
+				if !okRecv {
+					r.Fail(rule, site, p.Pos(call.Pos()), "Stat is not invoked on the file that Open returned")
+					return
+				}
+			}
+			r.OK(rule, site, p.Pos(st.Pos()), "Info is the value result of Stat on the opened file on every path")
+		})
+	}
+	r.Instances(rule, "ScanInput.Info stores in the dispatch function", n, 1)
 }
